@@ -330,8 +330,8 @@ def run(rep):
     ok = bool(size_cmp)
     if ok and comp is not None and isinstance(comp_r, ast.Call) and comp_r.args:
         small, big = 'len(%s)' % comp, 'len(%s)' % norm(comp_r.args[0])
-        if not diffcon.entails(facts, (small, big, False)) and diffcon.entails(facts, (big, small, True)):
-            ok = False
+        if not diffcon.entails(facts, (small, big, False)) and diffcon.entails(facts, (big, small, False)):
+            ok = False       # the comparison is over these two sizes and selects the body that is not smaller
     rep.check('R15.d', fkey(gz, 'size guard'), ok, 'compressed body is used only if it is smaller' if ok else
               'no size comparison guards the replacement (or it selects the larger body)', gz.mod, body_st)
     # streamed responses untouched
@@ -349,8 +349,15 @@ def run(rep):
             and isinstance(v, str) and v.lower() == 'accept-encoding'
     vary = [s for s in stmts_of(gz.node) if is_vary(s)]
     vary_nodes = cfg.nodes_of_all(vary)
-    acc_sts = [s for s in stmts_of(gz.node) if any(isinstance(x, ast.expr) and acc(x) for x in diffcon._header_nodes(s)
-                                                    if isinstance(x, (ast.Subscript, ast.Call)))]
+    def _evaluated(s):
+        """expressions the statement itself evaluates, named temporaries looked through"""
+        es = []
+        if isinstance(s, (ast.If, ast.While)):
+            es = [s.test]
+        elif isinstance(s, (ast.Assign, ast.AugAssign, ast.AnnAssign, ast.Return, ast.Expr)) and s.value is not None:
+            es = [s.value]
+        return [L.resolve(e, s) for e in es]
+    acc_sts = [s for s in stmts_of(gz.node) if any(acc(e) for e in _evaluated(s))]
     ok = bool(vary) and bool(acc_sts) and all(cfg.must_pass(vary_nodes, cfg.entry, cfg.nodes_of(i)) or
                                                cfg.must_pass(vary_nodes, cfg.nodes_of(i), [cfg.exit]) for i in acc_sts)
     rep.check('R15.d', fkey(gz, 'Vary'), ok, "Vary: Accept-Encoding is added before the response is made to depend on the header" if ok else
